@@ -111,7 +111,7 @@ def run(tier, seed):
     n = 120 if tier == "quick" else 3000
     rs = []
     for _ in range(n):
-        s = gen.random_scenario(rnd, {"meta", "ctl", "dyn", "db", "cut"}, nclauses=3, depth=rnd.choice([2, 3]))
+        s = gen.random_scenario(rnd, {"meta", "ctl", "dyn", "db", "cut", "rich"}, nclauses=3, depth=rnd.choice([2, 3]))
         sol = s["steps"][1][0]
         s["steps"] = [s["steps"][0]] + abandon_steps(sol["goal"], sol["qnv"], 3)
         rs.append(s)
